@@ -340,7 +340,11 @@ func runC12(b *fw.B) {
 func c12View(b *fw.B, k int) {
 	ctx := context.Background()
 	sc := scenario{Family: "gossip", Preset: "minimal", Validators: 64, ForkEpochs: [4]uint64{1, ff, ff, ff}, Participation: []float64{1}}
-	variant := (b.Batch + k) % 7
+	nVariants := 7
+	if !fw.Quick(b.Tier) {
+		nVariants = 8
+	}
+	variant := (b.Batch + k) % nVariants
 	switch variant {
 	case 1:
 		sc.ForkEpochs = [4]uint64{1, 2, ff, ff}
@@ -348,6 +352,10 @@ func c12View(b *fw.B, k int) {
 		sc.ForkEpochs = [4]uint64{2, 3, 4, ff}
 	case 3:
 		sc.ForkEpochs = [4]uint64{ff, ff, ff, ff}
+	case 7:
+		sc.Family = "gossip-mainnet" // 32-slot epochs: the deneb window (previous epoch) is wider than the 32-slot range
+		sc.Preset = "mainnet"
+		sc.ForkEpochs = [4]uint64{1, 2, 3, 4}
 	case 6:
 		sc.ForkEpochs = [4]uint64{1, 2, 3, 4} // deneb: epoch-based attestation window, fixed exit domain, blob commitments
 	case 4:
@@ -372,6 +380,8 @@ func c12View(b *fw.B, k int) {
 		// after the second rotation current != next
 		spec.EPOCHS_PER_SYNC_COMMITTEE_PERIOD = 2
 		lastSlot = 6*spe - 1
+	case 7:
+		lastSlot = 5*spe + 20
 	}
 	c, err := sim.NewChain(spec, b.Rng, sim.GenesisOpts{Validators: sc.Validators, Eth1Creds: func(i int) bool { return i%2 == 0 }})
 	if err != nil {
@@ -722,6 +732,9 @@ func (g *g12) attestationTopics() {
 	if !fw.Quick(g.b.Tier) {
 		backs = []uint64{0, 1, 2, 3, 4, 5, 6, 8, 11}
 	}
+	if spe > 8 {
+		backs = []uint64{0, 1, 19, 21, 33, 40} // mainnet: the current epoch, the previous one, and more than 32 slots back
+	}
 	runA := func(a *phase0.Attestation, sub uint64) func() gossipval.GossipValidatorResult {
 		return func() gossipval.GossipValidatorResult {
 			_, r := gossipval.ValidateAttestation(g.ctx, sub, a, v)
@@ -743,6 +756,10 @@ func (g *g12) attestationTopics() {
 		if te >= uint64(v.zspec.DENEB_FORK_EPOCH) && te+1 < (headSlot+1)/spe {
 			continue // deneb window: at the clock used below (headSlot+1) this slot is neither in the current nor the previous epoch
 		}
+		if te < uint64(v.zspec.DENEB_FORK_EPOCH) && s+32 < headSlot+1 {
+			continue // pre-deneb window: older than ATTESTATION_PROPAGATION_SLOT_RANGE at the clock used below
+		}
+		g.b.CountIf(s+32 < headSlot+1, "honest_votes_older_than_32_slots_in_the_deneb_window")
 		votedE := g.ancestorAtOrBefore(v.head, s)
 		targetE := g.checkpointOf(v.head, te)
 		if votedE == nil || targetE == nil {
